@@ -73,7 +73,16 @@ def r1(ctx):
             else:
                 dd = direct_def(b, t['op'])
                 if dd[0] == 'stmt' and dd[1]['rv']['k'] == 'disc':
-                    fs = [e[2] for e in dd[1]['rv']['p'][1] if isinstance(e, list) and e[0] == 'F']
+                    dp = dd[1]['rv']['p']
+                    from ..analysis import through_tuple
+                    tt_ = through_tuple(b, dp)          # `match (self.unique, self.rf_under)`: component 1 of the scrutinee is the field rf_under
+                    while tt_ is not None and op_place(tt_[0]) is not None:
+                        dp = op_place(tt_[0])
+                        d2 = direct_def(b, {'c': [dp[0], []]}) if not dp[1] else None
+                        if d2 is not None and d2[0] == 'place':
+                            dp = d2[1]
+                        tt_ = through_tuple(b, dp)
+                    fs = [e[2] for e in dp[1] if isinstance(e, list) and e[0] == 'F']
                     m = dict(zip(t['vals'], t['tgts']))
                     some = m.get(1)
                     side = b.dominates(some, bi) if some is not None else (not b.dominates(m.get(0), bi) if 0 in m else None)
@@ -102,6 +111,11 @@ def r1(ctx):
     # root_paths: defined on both sides of `isolate`
     rl = op_local(agg_field(s, 'root_paths'))
     defs = b.defs().get(rl, [])
+    # a local introduced for the value (`let root_paths = if ..; FileGroupFilter { root_paths, .. }`) is moved once more
+    for _ in range(4):
+        if len(defs) == 1 and defs[0][2] == 'assign' and defs[0][3]['rv']['k'] == 'use' and op_local(defs[0][3]['rv']['op']) is not None and not op_place(defs[0][3]['rv']['op'])[1]:
+            rl = op_local(defs[0][3]['rv']['op'])
+            defs = b.defs().get(rl, [])
     iso_true = iso_false = None
     for d in defs:
         dbb = d[0]
